@@ -608,6 +608,63 @@ def alias_cases():
         ctx.oblige("concrete address without code resolves to `no code`", z3.BoolVal(r is None))
 
     out.append(Case(f"{PROP}/sevm.SEVM.resolve_address_alias", "no branching needed", harness_known, sources=("halmos.sevm:SEVM.resolve_address_alias",)))
+
+    def harness_stale(interp):
+        """the cached answer is an induction hypothesis about the accounts that existed when it was computed: an account added
+        since (vm.etch, CREATE: both go through Exec.set_code) is a candidate that was never considered"""
+        ctx = interp.ctx
+        PC = z3.Bool("PC")
+        t = z3.BitVec("target", 160)
+        TEST = hs.FOUNDRY_TEST
+        A1, NEW = z3.BitVecVal(0xAAAA0001, 160), z3.BitVecVal(0x1234, 160)
+        code = {TEST: "<test>", A1: "<c1>"}
+        # the path took the `no account` successor earlier: it carries target != every account of that time
+        PC0 = z3.And(PC, t != TEST, t != A1)
+        oracle = Oracle(ctx, PC0)
+        path = RecPath()
+        ex = NS(code=code, alias={t: None}, check=oracle, path=path, pc=9)
+        interp.call(hs.Exec.__dict__["set_code"], [ex, NEW, hs.Contract(b"\x60\x00")], {})
+        ctx.oblige("set_code adds the account", z3.BoolVal(NEW in ex.code))
+        branches, pushed = [], []
+
+        def create_branch(e, cond, pc):
+            inherited = [c for c, _ in e.path.appended]
+            nx = NS(cond=z3.And(*inherited, cond) if inherited else cond, own=cond, pc=pc, alias=dict(e.alias))
+            branches.append(nx)
+            return nx
+
+        sevm = NS(create_branch=create_branch)
+        stack = NS(push=lambda e: pushed.append(e))
+        try:
+            r = interp.call(hs.SEVM.__dict__["resolve_address_alias"], [sevm, ex, t, stack], {})
+        except InfeasiblePath:
+            ctx.oblige("InfeasiblePath only if no address outside the test contract is possible", z3.Implies(PC0, z3.BoolVal(False)))
+            return
+        MISSING = object()
+        succ = [(b.cond, b.alias.get(t, MISSING)) for b in branches] + [(z3.And(*[c for c, _ in path.appended]) if path.appended else z3.BoolVal(True), r)]
+        for cnd, al in succ:
+            if al is None:
+                ctx.oblige("after a new account appeared: `no code` only where the target differs from every account that exists NOW", z3.Implies(z3.And(PC0, cnd), z3.And(*[t != a for a in ex.code])), info={"accounts": len(ex.code)})
+            elif al is not MISSING:
+                ctx.oblige("after a new account appeared: an alias equals the target under its successor's condition and is an existing account", z3.And(z3.Implies(z3.And(PC0, cnd), t == al), z3.BoolVal(al in ex.code)))
+        ctx.oblige("after a new account appeared: every value of the target address is still covered", z3.Implies(PC0, z3.Or(*[c for c, _ in succ])))
+
+    out.append(Case(f"{PROP}/sevm.SEVM.resolve_address_alias", "cached `no account`, then an account is added (set_code)", harness_stale, replay=replay_script("alias_cache_after_etch.py", "EXTCODESIZE(a); vm.etch(0x1234, code); EXTCODESIZE(a) with a == 0x1234 possible"), sources=("halmos.sevm:SEVM.resolve_address_alias", "halmos.sevm:Exec.set_code")))
+
+    def harness_gone(interp):
+        ctx = interp.ctx
+        t = z3.BitVec("target", 160)
+        A1, GONE = z3.BitVecVal(0xAAAA0001, 160), z3.BitVecVal(0x9999, 160)
+        oracle = Oracle(ctx, z3.Bool("PC"))
+        ex = NS(code={hs.FOUNDRY_TEST: "<test>", A1: "<c1>"}, alias={t: GONE}, check=oracle, path=RecPath(), pc=9)
+        sevm = NS(create_branch=lambda e, cond, pc: NS(alias=dict(e.alias), path=NS(appended=[])))
+        try:
+            r = interp.call(hs.SEVM.__dict__["resolve_address_alias"], [sevm, ex, t, NS(push=lambda e: None)], {})
+        except InfeasiblePath:
+            return
+        ctx.oblige("an alias handed out is an account that exists (the callers index ex.code with it), also when the cached one was created in a frame that has been reverted since", z3.BoolVal(r is None or r in ex.code), info={"returned": str(r)})
+
+    out.append(Case(f"{PROP}/sevm.SEVM.resolve_address_alias", "cached alias whose account is gone", harness_gone, replay=replay_script("alias_cache_after_etch.py", "alias to an account created in a reverted frame"), sources=("halmos.sevm:SEVM.resolve_address_alias",)))
     return out
 
 
